@@ -140,7 +140,7 @@ def h_faithful(variant):
 
 
 DIMS = {'ike_algs': ('algs',), 'ike_id': ('id',), 'ipsec_algs': ('algs',), 'ipsec_misc': ('misc',)}
-KINDS = ('missing', 'none', 'true', 'int', 'numstr', 'str', 'empty', 'list', 'dict', 'float', 'list_of_int', 'list_of_unknown',
+KINDS = ('missing', 'none', 'true', 'int', 'numstr', 'str', 'empty', 'list', 'dict', 'float', 'inf', 'nan', 'negative', 'huge', 'bytes', 'list_of_int', 'list_of_unknown',
          'pem_rsa_priv', 'pem_rsa_pub', 'pem_ec_priv', 'pem_ec_pub', 'pem_ed25519_priv', 'pem_ed25519_pub', 'pem_truncated')
 _PEMS = {}
 
@@ -182,6 +182,16 @@ def kind_value(eng, kind, name):
         return {}
     if kind == 'float':
         return 1.5
+    if kind == 'inf':
+        return float('inf')
+    if kind == 'nan':
+        return float('nan')
+    if kind == 'negative':
+        return -7
+    if kind == 'huge':
+        return 2 ** 70
+    if kind == 'bytes':
+        return b'192.0.2.1'
     if kind == 'list_of_int':
         return [7]
     if kind == 'list_of_unknown':
